@@ -167,3 +167,20 @@ def as_str(v):
 @prim
 def is_str_val(v):
     return v is None or isinstance(v, str)
+
+
+@prim
+def ws_tokens(s):
+    """Maximal runs of characters other than CSS whitespace (space, tab, LF, CR, FF)."""
+    import re
+    return re.findall('[^ \t\r\n\f]+', s)
+
+
+@prim
+def is_list_val(v):
+    return isinstance(v, (list, tuple))
+
+
+@prim
+def as_list(v):
+    return list(v)
